@@ -30,7 +30,8 @@ func init() {
 			"(16) RevokeByToken expires each lease in the namespace resolved from that lease's id; " +
 			"(17) token tidy deletes a parent-index entry only across successful lookups of the parent and of the child, the child being looked up by the id part of the key in the namespace the key's suffix names; " +
 			"(18) writers of the parent-index key (storeCommon, revokeInternal) append the namespace suffix exactly when the token's own namespace is not the root namespace, and the readers that split the key (tree walk, orphaning loop) look the id part up in the namespace the suffix names, falling back only to their tabled own context; " +
-			"(19) the namespace a token-addressed request (auth/token/lookup|renew|revoke|revoke-orphan) is switched into is split off the SSC-decoded token whenever the body token is an SSC token, never off the raw body string.",
+			"(19) the namespace a token-addressed request (auth/token/lookup|renew|revoke|revoke-orphan) is switched into is split off the SSC-decoded token whenever the body token is an SSC token, never off the raw body string; " +
+			"(20) storeCommon — which writes the revocation marker — salts entry.ID in the namespace resolved from entry.NamespaceID and writes into that namespace's id view, the key and view lookupInternal reads (shared with C19.1).",
 		NotDecided: "restart after a prefix of a revocation's writes (crash points); that ClearView removes every cubbyhole key; interleavings other than the declared create-vs-revoke conflict pair; behaviour of the expiration manager's retry queue.",
 		Run:        runC04,
 	})
@@ -594,6 +595,8 @@ func runC04(c *eng.Ctx, thorough bool) {
 		}
 	}
 	runC04Gaps2(c)
+	// ---- C04.20 the revocation marker (ts.store) is written under the key lookup reads (shared with C19.1, props/c19g2.go)
+	tokenEntryKeyAgreement(c, "C04.20")
 }
 
 // okEdgesOf: success edges of all calls in f matching pat.
